@@ -82,6 +82,7 @@ def main():
             continue
         meta = json.load(open(metaf))
         demo = meta.get("demo_cmd", "")
+        demo = re.split(r"\s{2,}\(|\s+#\s", demo)[0].strip()  # drop trailing free-text remarks
         # agents were told to use CARGO_TARGET_DIR=<wt>/target; make sure the command does
         demo_env = {"CARGO_TARGET_DIR": target}
         rec = {"id": "%s-%s" % (pid, k), "property": pid, "demo_cmd": demo}
